@@ -101,7 +101,30 @@ def run(ctx):
             continue
         for _, _, t in success_values(b):
             if t[0] == "field" and len(t) > 3 and t[3] in cap_adts and t[2] in cap_adts[t[3]] and render(t[1]) == "self":
-                enc_uses.setdefault((t[3], t[2]), []).append(("encode", "header", b.loc))
+                # how do the callers frame the bare bytes?
+                for c0 in calls_to(f, lambda c, n=n: c.res == n):
+                    cb = c0.body
+                    if cb.is_cleanup(c0.bb):
+                        continue
+                    used = False
+                    for c in cb.calls():
+                        if cb.is_cleanup(c.bb) or c.res not in ("bcder::encode::sequence", "bcder::encode::set", "bcder::encode::sequence_as"):
+                            continue
+                        args = K.arg_terms(c)
+                        last = args[-1] if args else None
+                        if last is None:
+                            continue
+
+                        def is_e(x):
+                            return x[0] == "call" and x[1] == n
+                        if is_e(last):
+                            enc_uses.setdefault((t[3], t[2]), []).append(("encode", "content", c.where()))
+                            used = True
+                        elif last[0] == "agg" and last[1] == "tuple" and any(is_e(strip_deep(el)) for _, el in last[3]):
+                            enc_uses.setdefault((t[3], t[2]), []).append(("encode", "header", c.where()))
+                            used = True
+                    if not used:
+                        enc_uses.setdefault((t[3], t[2]), []).append(("encode", "unknown", c0.where()))
     for adt, flds in sorted(cap_adts.items()):
         for fld in flds:
             framings = list(enc_uses.get((adt, fld), []))
